@@ -29,7 +29,9 @@ def goenv():
 
 
 def outdir(prop):
-    d = os.path.join(VERIF, "out", prop)
+    # trials against a scratch copy (VERIF_REPO) get their own work dir and never touch evidence/
+    base = os.environ.get("VERIF_OUT") or (os.path.join(VERIF, "out") if REPO == "/repo" else os.path.join("/tmp", "verif-out-" + hashlib.md5(REPO.encode()).hexdigest()[:8]))
+    d = os.path.join(base, prop)
     os.makedirs(d, exist_ok=True)
     return d
 
@@ -234,7 +236,7 @@ def map_labels(paths, rules):
 
 # --------------------------------------------------------------------------- running the harness
 
-def run_harness(binp, driver, workdir, scheds=None, n=0, seed=1, shards=None, opt="", timeout=1800, tag="m1"):
+def run_harness(binp, driver, workdir, scheds=None, n=0, seed=1, shards=None, opt="", timeout=1800, tag="m1", procs=1):
     """Run the controlled harness in parallel shards. Returns (trace files, merged stats)."""
     shards = shards or max(1, min(NCPU, 16))
     scheds = scheds or []
@@ -243,7 +245,7 @@ def run_harness(binp, driver, workdir, scheds=None, n=0, seed=1, shards=None, op
         sf = os.path.join(workdir, "%s-%s-scheds.json" % (driver, tag))
         with open(sf, "w") as f:
             json.dump(scheds, f)
-    procs = []
+    plist = []
     per = (len(scheds) + shards - 1) // shards if scheds else 0
     nper = (n + shards - 1) // shards if n else 0
     run0 = 0
@@ -255,14 +257,14 @@ def run_harness(binp, driver, workdir, scheds=None, n=0, seed=1, shards=None, op
         tf = os.path.join(workdir, "%s-%s-%02d.ndjson" % (driver, tag, s))
         stf = os.path.join(workdir, "%s-%s-%02d.stats.json" % (driver, tag, s))
         cmd = [binp, "-test.run", "^TestRun$", "-test.timeout", "%ds" % timeout, "-driver", driver, "-out", tf, "-stats", stf,
-               "-n", str(ns), "-seed", str(seed * 100 + s), "-run0", str(run0), "-opt", opt]
+               "-n", str(ns), "-seed", str(seed * 100 + s), "-run0", str(run0), "-opt", opt, "-procs", str(procs)]
         if sf and a < b:
             cmd += ["-sched", sf, "-from", str(a), "-to", str(b)]
         run0 += (b - a if a < b else 0) + ns
-        procs.append((subprocess.Popen(cmd, cwd=workdir, stdout=subprocess.PIPE, stderr=subprocess.STDOUT, text=True), tf, stf, cmd))
+        plist.append((subprocess.Popen(cmd, cwd=workdir, stdout=subprocess.PIPE, stderr=subprocess.STDOUT, text=True), tf, stf, cmd))
     traces, stats = [], {"executions": 0, "events": 0, "schedules": 0, "schedules_followed": 0, "distinct_label_sequences": 0,
                          "steps": 0, "bubble_deadlocks": 0, "samples": [], "crashed_shards": 0}
-    for p, tf, stf, cmd in procs:
+    for p, tf, stf, cmd in plist:
         try:
             out, _ = p.communicate(timeout=timeout + 60)
         except subprocess.TimeoutExpired:
@@ -393,8 +395,9 @@ def finish(prop, tier, seed, level, coverage, violations, t0, assumptions, notes
     }
     if notes:
         ev["notes"] = notes
-    os.makedirs(os.path.join(VERIF, "evidence"), exist_ok=True)
-    with open(os.path.join(VERIF, "evidence", prop + ".json"), "w") as f:
+    evdir = os.path.join(VERIF, "evidence") if REPO == "/repo" else od
+    os.makedirs(evdir, exist_ok=True)
+    with open(os.path.join(evdir, prop + ".json"), "w") as f:
         json.dump(ev, f, indent=1)
     log("[%s %s] executions=%s violations=%d known=%d wall=%.1fs" % (prop, tier, coverage.get("traces_validated_against_impl", coverage.get("evaluations")), len(unlisted), len(listed), time.time() - t0))
     return rc
@@ -450,8 +453,11 @@ def standard_check(prop, tier, seed, fam):
     states, trans, scheds, notes, scen = fam["models"](wd, tier, seed)
     n = fam["n_random"][tier]
     traces, st = run_harness(binp, fam["driver"], wd, scheds=scheds, n=n, seed=seed, opt=fam.get("opt", ""))
-    for (tag, opt, nn) in fam.get("modes", {}).get(tier, []):
-        t2, s2 = run_harness(binp, fam["driver"], wd, scheds=None, n=nn, seed=seed, opt=opt, tag=tag)
+    for mode in fam.get("modes", {}).get(tier, []):
+        tag, opt, nn = mode[:3]
+        procs = mode[3] if len(mode) > 3 else 1
+        t2, s2 = run_harness(binp, fam["driver"], wd, scheds=None, n=nn, seed=seed, opt=opt, tag=tag, procs=procs,
+                             shards=(4 if procs > 1 else None))
         traces += t2
         for k in ("executions", "events", "steps", "bubble_deadlocks", "crashed_shards", "distinct_label_sequences"):
             st[k] += s2[k]
